@@ -426,6 +426,10 @@ func (h *harness) hostile(s Step) error {
 			if s.Var%2 == 0 {
 				if n := h.answerCaps[sentID]; n > 0 && h.exportRefs >= n {
 					h.exportRefs -= n
+				} else if n > 0 {
+					// the peer has already given these references back with Release: releasing them again through
+					// the Finish is its protocol error, which the connection may answer with an Abort
+					allow("abort")
 				}
 			}
 			delete(h.answerCaps, sentID)
